@@ -323,7 +323,13 @@ class C09(QProp):
         return q_cases(items)
 
 
-class C13(QProp):
+class _OffsetLaws:
+    def scenarios(self, rng, tier):
+        fails, n = _offset_law_scenario()
+        return {"evaluations": 2 * n, "nontrivial": 2 * n, "spec_fail": fails, "dist": {"offset-scale-laws": n}}
+
+
+class C13(_OffsetLaws, QProp):
     """Theorems (Props/C13.lean): `+ - * /` on proportional quantities refine the specification's SI operations, hence commutativity, associativity, distributivity, a-a = 0, a/a = 1 for the evaluator's results; products stay proportional; every shipped fact is in scope (kernel check over the regenerated facts table). Offset scales excluded (recorded finding). Correspondence: both sides of every law on literals and shipped facts, all pairs of units in both orders, a reference-driven pair sweep."""
     id = "C13"
     module = "Anything.Props.C13"
@@ -387,6 +393,25 @@ class C13(QProp):
             c.expect = ("REFPAIR", exp)
             cases.append(c)
         return cases
+
+
+def _offset_law_scenario():
+    """The laws also quantify over quantities on offset scales. There they fail by the nature
+    of affine units (a sum keeps the left operand's scale and converts the right operand as a
+    POINT): recorded finding `class:offset-scale-sum`, checked so that it stays visible."""
+    pairs = [("1°C + 1K to K", "1K + 1°C to K", "a + b = b + a"),
+             ("(1°C + 1K) + 1K to K", "1°C + (1K + 1K) to K", "(a + b) + c = a + (b + c)"),
+             ("5°F + 2°C to K", "2°C + 5°F to K", "a + b = b + a")]
+    lines = []
+    for a, b, _ in pairs:
+        lines += ["query " + C.hexs(a), "query " + C.hexs(b)]
+    rc, out, err = C.run_lines(C.harness_bin(False), lines, watchdog=10)
+    fails = []
+    for i, (a, b, law) in enumerate(pairs):
+        x, y = out[2 * i], out[2 * i + 1]
+        if x != y:
+            fails.append(("class:offset-scale-sum", f"{a}  vs  {b}", f"{law} fails on an offset scale: `{a}` = {x[2:60]}, `{b}` = {y[2:60]}"))
+    return fails, len(pairs)
 
 
 def load_facts(k, rng):
